@@ -62,7 +62,14 @@ def case_strategy(draw):
         st.tuples(st.just("advance"), st.sampled_from([100, 1000, 4000, 5000, 6000, 21000])).map(list),
         st.just(["toggle"]), st.just(["enable_free"]), st.just(["enable_credit"]), st.just(["slam_tilt"]),
     )
-    return {"cfg": cfg, "ops": draw(st.lists(op, min_size=3, max_size=45))}
+    ops = draw(st.lists(op, min_size=3, max_size=45))
+    if tiers and nco and not cfg["free_play"] and draw(st.integers(0, 2)) == 0:
+        # directed opening: a complete first game that reaches ball 2, then a second game with money put in during ball 1
+        # and again after ball 2 has started (the tier count starts afresh at ball 2 of every game)
+        pay = [["coin", 0]] * draw(st.integers(2, 6))
+        ops = pay + [["start"], ["drain"], ["drain"]] + pay + [["start"]] + [["coin", 0]] * draw(st.integers(1, 3)) + [
+            ["drain"]] + [["coin", draw(st.integers(0, nco - 1))]] * draw(st.integers(1, 5)) + ops[:20]
+    return {"cfg": cfg, "ops": ops}
 
 
 def credit_unit(min_coin, price):
